@@ -733,6 +733,13 @@ func runC08(c *eng.Ctx) {
 		{Regs: []Reg{mkReg("InU_0_2_Keyed", godi.Scoped), mkReg("Leaf_K1_a", godi.Scoped)}},
 		{Regs: []Reg{mkReg("VoidK1", godi.Scoped)}},
 		{Regs: []Reg{mkReg("PosA_0_2", godi.Singleton)}},
+		// a REQUIRED keyed dependency on a built-in type can never be satisfied (only the unkeyed identity is built in)
+		{Regs: []Reg{mkReg("BIkeyedReq_S6", godi.Scoped)}},
+		{Regs: []Reg{mkReg("BIkeyedReq_S6", godi.Transient)}},
+		{Regs: []Reg{mkReg("BIkeyedReq_S7", godi.Scoped)}},
+		{Regs: []Reg{mkReg("BIkeyedReq_S7", godi.Transient), mkReg("Leaf_K0_a", godi.Singleton)}},
+		{Regs: []Reg{mkReg("BIkeyedReq_S5", godi.Scoped), mkReg("BIkeyedReq_S6", godi.Singleton)}},
+		{Regs: []Reg{mkReg("BIkeyedReq_S5", godi.Transient)}},
 		// acceptance: empty group, absent optional
 		{Regs: []Reg{mkReg("InU_0_6_Group", godi.Singleton), mkReg("InU_1_4_Opt", godi.Singleton)}},
 		// D11: singleton consuming a group whose members have dependencies
